@@ -661,6 +661,46 @@ class PropertiesData(Properties):
 
         return True
 
+    def _original_filenames(self, define=None, update=None, clear=False):
+        """The names of files containing the original data and metadata.
+
+        {{original filenames}}
+
+        The original file names of the data, if any, are included,
+        so that data set from another construct still record where
+        they came from.
+
+        .. versionadded:: (cfdm) 1.10.0.1
+
+        :Parameters:
+
+            {{define: (sequence of) `str`, optional}}
+
+            {{update: (sequence of) `str`, optional}}
+
+            {{clear: `bool` optional}}
+
+        :Returns:
+
+            `set`
+                {{Returns original filenames}}
+
+                If the *define* or *update* parameter is set then
+                `None` is returned.
+
+        """
+        out = super()._original_filenames(
+            define=define, update=update, clear=clear
+        )
+        if out is None:
+            return
+
+        data = self.get_data(None, _units=False, _fill_value=False)
+        if data is not None:
+            out.update(data._original_filenames(clear=clear))
+
+        return out
+
     def get_filenames(self):
         """Return the name of the file or files containing the data.
 
